@@ -59,7 +59,7 @@ def parse_unit(path):
             elif kind == 'loop':
                 n, where, kv = arg
                 lp = f['loops'].setdefault(n, {})
-                lp.update({k: v for k, v in kv.items() if k in ('index', 'elem', 'ty', 'native', 'chunks_of')})
+                lp.update({k: v for k, v in kv.items() if k in ('index', 'elem', 'ty', 'native', 'chunks_of', 'optional')})
                 if where == 'clauses':
                     lp['clauses'] = _tag(text, f"OBL loop {f['name']}.loop{n}")
                 else:
